@@ -255,6 +255,8 @@ func readErrClass(err error) string {
 		return "clockJump"
 	case strings.Contains(m, "lamport edit time is zero"), strings.Contains(m, "different author than"):
 		return "invalidPack"
+	case strings.HasSuffix(m, "has no operation"):
+		return "noOps"
 	case m == "bug doesn't exist":
 		return "notFound"
 	}
